@@ -435,6 +435,72 @@ def job_dfa2regexp(job, n, k, shape, length):
     return job.solve()
 
 
+# ------------------------------------------------------------------------------------------ Chomsky phases
+CHOMSKY_EXTRAS = [('A', 'b'), ('S', 'A'), ('A', ''), ('S', 'aSb')]
+
+
+def job_chomsky_checker(job, family, phase, nsym=4, length=3):
+    """cfg_check_chomsky as a judge: the submitted grammar is the correct phase result (computed by the library) plus any
+    subset of four extra rules (a rule that enlarges the language, a unit rule, an epsilon rule, a long rule)"""
+    import gambatools.notebook_chomsky as NC
+    from gambatools.cfg_algorithms import cfg_print_simple
+    from .cfg_sym import sym_cfg, entries_json, read_cfg, GrammarSem, is_var
+    from .C08 import FAMILIES, post_bad
+    from .C13 import nondegenerate
+    job.functions('notebook_chomsky', ['cfg_check_chomsky', 'check_cfg_has_start_variable', 'check_cfg_has_no_epsilon_rules',
+                                       'check_cfg_has_no_unit_productions', 'check_cfg_has_right_hand_sides_of_length_at_most_two', 'check_cfg_is_chomsky'])
+    d = E.dag
+    c.set_exhaustive(12)
+    terminals = ['a', 'b']
+    variables, fixed, symbolic = FAMILIES[family]
+    symbolic = symbolic[:nsym]
+    cands = [(X, tuple(r)) for X, r in fixed] + [(X, tuple(r)) for X, r in symbolic]
+    G, entries = sym_cfg(variables, terminals, cands, variables[0], fixed=[(X, tuple(r)) for X, r in fixed])
+    has_rule = {v: d.any_(bit for bit, X, rhs in entries if X == v) for v in variables}
+    uses = {t: d.any_(bit for bit, X, rhs in entries if t in rhs) for t in terminals}
+    first_is_start, seen = TRUE, FALSE
+    for bit, X, rhs in entries:
+        if X != variables[0]:
+            first_is_start = d.and_(first_is_start, d.or_(bit ^ 1, seen))
+        else:
+            seen = d.or_(seen, bit)
+    E.assumptions.append(d.all_(list(has_rule.values()) + list(uses.values()) + [first_is_start, nondegenerate(entries, variables)]))
+    E.while_bound = 60
+    xb = [E.fresh('extra_%s_%s' % (X, r or 'eps')) for X, r in CHOMSKY_EXTRAS]
+    dec0 = entries_json(entries, variables, terminals, variables[0])
+    dec = lambda mv: dict(dec0(mv), extras=[[X, r] for b, (X, r) in zip(xb, CHOMSKY_EXTRAS) if mv(b)], phase=phase)
+    job.inputs['exercise'] = None
+    job.decoders['exercise'] = dec
+    rp = ('chomsky_checker', {'x': dec, 'length': length})
+    ref_text = cfg_print_simple(G)
+    G1 = job.call(NC.cfg_apply_chomsky, G, phase, 'Z', replay=rp)
+    if G1 is None:
+        job.lifted()
+        return job.solve()
+    base = cfg_print_simple(G1)
+    answer = L.GStr([(TRUE, E.lift(lambda t: t + '\n', [base]))] + [(b, '%s -> %s\n' % (X, r or 'ε')) for b, (X, r) in zip(xb, CHOMSKY_EXTRAS)])
+    ev = run_checker(NC.cfg_check_chomsky, ref_text, answer, phase, 'Z', length)
+    job.lifted()
+    ok = said_ok(ev)
+    ans_entries = [(lit, X, rhs) for lit, X, rhs, kinds in read_cfg(G1)] + [(b, X, tuple(r)) for b, (X, r) in zip(xb, CHOMSKY_EXTRAS)]
+    ans_vars = sorted(set(X for _, X, _ in ans_entries) | set(s_ for _, _, rhs in ans_entries for s_ in rhs if is_var(s_)))
+    words = c.words_upto(terminals, length)
+    diff = []
+    for w in words:
+        r_ = GrammarSem(entries, variables, w, fold=True).derives(variables[0])
+        a_ = GrammarSem(ans_entries, ans_vars, w, fold=True).derives('Z' if phase >= 1 else variables[0])
+        diff.append(d.iff(r_, a_) ^ 1)
+    kinds_of = lambda rhs: tuple('Variable' if is_var(s_) else 'Terminal' for s_ in rhs)
+    pb = post_bad([(lit, X, rhs, kinds_of(rhs)) for lit, X, rhs in ans_entries], {'Z': TRUE}, phase, variables)
+    struct_bad = d.any_(pb[p_] for p_ in range(2, phase + 1))      # phase 1 (start variable) holds by construction
+    job.oblige('OK only if the submitted grammar has the language of the reference on all words up to the length bound and satisfies '
+               'the postconditions of phases 2..%d' % phase, d.and_(ok, d.or_(d.any_(diff), struct_bad)), replay=rp)
+    job.must_reach('OK is printed for some submission', ok)
+    job.must_reach('an error is printed for some submission', said(ev, lambda t: t.startswith('Error')))
+    job.failures_as_obligations(replay=rp)
+    return job.solve()
+
+
 # ------------------------------------------------------------------------------------------ CYK table
 CYK_RULES = [('S', 'AB'), ('A', 'a'), ('B', 'b'), ('S', 'BA'), ('A', 'b'), ('B', 'a'), ('S', 'a'), ('A', 'AS')]
 CYK_FIXED = 3
@@ -574,6 +640,8 @@ def jobs(tier):
     for s in ([ 'I', 0], ['C', 0, ['I', 0]], ['S', 0, ['C', 0, 0]], ['I', ['S', 0, 0]]):
         from .C06 import _shape_name
         add('dfa2regexp_%s' % _shape_name(s), job_dfa2regexp, n=2, k=2 if len(str(s)) < 18 else 1, shape=s, length=3, timeout=tmo)
+    # job_chomsky_checker (cfg_check_chomsky judging wrong answers) is NOT registered: with four extra-rule bits on top of the
+    # grammar bits the lifted cfg_to_chomsky + enumerator did not finish in 400 s (see DESIGN.md 9.3)
     add('cyk_checker_ab', job_cyk_checker, word='ab', timeout=tmo)
     add('cyk_checker_ba', job_cyk_checker, word='ba', timeout=tmo)
     for dtype in ('leftmost', 'rightmost', 'any'):
@@ -769,6 +837,35 @@ def _replay_cyk_checker(rp):
     return 'OK' in lines and not right, {'printed': lines, 'table correct': right}
 
 
-REPLAY = {'cyk_checker': _replay_cyk_checker, 'derivation': _replay_derivation, 'compare': _replay_compare, 'complement': _replay_complement, 'product': _replay_product, 'reverse': _replay_reverse,
+def _replay_chomsky_checker(rp):
+    import gambatools.notebook_chomsky as NC
+    from gambatools.cfg_algorithms import cfg_print_simple
+    x = rp['x']
+    G = nat.mk_cfg(x)
+    ref = cfg_print_simple(G)
+    G1 = NC.cfg_apply_chomsky(G, x['phase'], 'Z')
+    answer = cfg_print_simple(G1) + '\n' + ''.join('%s -> %s\n' % (X, r or 'ε') for X, r in x['extras'])
+    lines = _capture(NC.cfg_check_chomsky, ref, answer, x['phase'], 'Z', rp['length'])
+    j1 = nat.cfg_json_of(G1)
+    R = [[X_, list(r_)] for X_, r_ in j1['R']] + [[X, list(r)] for X, r in x['extras']]
+    V = sorted(set(j1['V']) | set(X for X, _ in R))
+    aj = {'V': V, 'Sigma': ['a', 'b'], 'S': 'Z', 'R': R}
+    words = nat.words_upto(['a', 'b'], rp['length'])
+    same = all(nat.ref_cfg_accepts(x, w) == nat.ref_cfg_accepts(aj, w) for w in words)
+    ph = x['phase']
+    isv = lambda s_: not (len(s_) == 1 and (s_.islower() or s_.isdigit()))
+    post = True
+    if ph >= 2:
+        post = post and not any(len(r_) == 0 and X_ != 'Z' for X_, r_ in R)
+    if ph >= 3:
+        post = post and not any(len(r_) == 1 and isv(r_[0]) for X_, r_ in R)
+    if ph >= 4:
+        post = post and not any(len(r_) > 2 for X_, r_ in R)
+    if ph >= 5:
+        post = post and all((len(r_) == 1 and not isv(r_[0])) or (len(r_) == 2 and all(isv(s_) for s_ in r_)) or (len(r_) == 0 and X_ == 'Z') for X_, r_ in R)
+    return 'OK' in lines and not (same and post), {'printed': lines, 'same language': same, 'postconditions': post, 'answer': answer}
+
+
+REPLAY = {'chomsky_checker': _replay_chomsky_checker, 'cyk_checker': _replay_cyk_checker, 'derivation': _replay_derivation, 'compare': _replay_compare, 'complement': _replay_complement, 'product': _replay_product, 'reverse': _replay_reverse,
           'minimal': _replay_minimal, 'nfa2dfa': _replay_nfa2dfa, 'from_words': _replay_from_words,
           'accepts_rejects': _replay_accepts_rejects, 'dfa2regexp': _replay_dfa2regexp}
